@@ -27,7 +27,7 @@ EXPLANATION = (
 NOT_DECIDED = ["that unit k holds the text of page k", "heading-section units of docx/doc/odt (text partition is value level)", "mbox message boundaries (regex semantics)",
                "legacy PPT slide lists: text-less slides are dropped when any slide has text (open known finding)"]
 TRUSTED = ["pypdf reader.pages, openpyxl sheetnames, xlrd sheets(), ElementTree findall enumerate the source units in order", "CFG path enumeration"]
-FLOORS = {"C03-FILT": 2, "C03-JOIN": 11, "C03-NUM": 25, "C03-FILL": 7}
+FLOORS = {"C03-FILT": 2, "C03-JOIN": 11, "C03-NUM": 25, "C03-FILL": 7, "C03-COVER": 6}
 
 JOIN_CLASSES = ["PdfContent", "PptxContent", "OdpContent", "XlsxContent", "OdsContent", "EpubContent", "HtmlContent", "PlainTextContent", "EmailContent", "OdgContent", "OdfContent"]
 # content class -> (collection, how the number is obtained in iterate_units: 'enumerate' | '<field on element>')
@@ -330,4 +330,16 @@ def rule_filt(ctx: Ctx) -> RuleReport:
     return rep
 
 
-RULES = [rule_join, rule_num, rule_fill, rule_filt]
+
+def rule_cover(ctx: Ctx) -> RuleReport:
+    """Units cover the body: a piece of text that is stored in no unit field on some path is in no unit (C02-SINK from this side)."""
+    from sa.rules.c02 import rule_sink
+
+    rep = rule_sink(ctx)
+    rep.rule = "C03-COVER"
+    rep.description = "text taken from a page / slide element is stored into a unit field on every path (no piece ends up in no unit)"
+    for f in rep.findings:
+        f.rule = "C03-COVER"
+    return rep
+
+RULES = [rule_join, rule_num, rule_fill, rule_filt, rule_cover]
